@@ -56,6 +56,39 @@ theorem C03_dispatch_is_the_loop_unrolled (s : St) (c : Ctx) (hm : mctx s = some
 theorem C03_errno_line_only_sets_errno (c : Cfg) (e : Nat) : step c (.errno e) = { c with st := { c.st with errno := e } } := rfl
 
 
+/-- **A one-shot subscription fires at most once** (D-03c).  Messages are matched against subscriptions when they are
+published; a message is dropped when it is read exactly if the subscription it was matched by is one-shot and has left
+the module's table meanwhile (it fired, or was removed); consuming a one-shot subscription takes it out of the table. -/
+theorem C03_oneshot_subscription_expires (s : St) (md : Mod) (msg : Msg) :
+    oneshotExpired s md msg = true ↔
+      ∃ i src, msg.sub = some i ∧ s.srcs[i]? = some src ∧ src.oneshot = true ∧ i ∉ md.subs := by
+  unfold oneshotExpired
+  constructor
+  · intro h
+    cases hs : msg.sub with
+    | none => simp [hs] at h
+    | some i =>
+      cases hx : s.srcs[i]? with
+      | none => simp [hs, hx] at h
+      | some src =>
+        simp [hs, hx] at h
+        exact ⟨i, src, rfl, hx, h.1, by simpa using h.2⟩
+  · rintro ⟨i, src, h1, h2, h3, h4⟩
+    simp [h1, h2, h3, h4]
+
+/-- removing a subscription (what consuming a one-shot one does) takes it out of the module's table: every later message
+that had been matched by it finds it expired -/
+theorem C03_consumed_oneshot_is_expired (s : St) (m : ModId) (md : Mod) (i : SrcId) (src : Src) (msg : Msg)
+    (hm : s.mods[m]? = some md) (hs : msg.sub = some i) (hi : s.srcs[i]? = some src) (ho : src.oneshot = true) :
+    ∃ md', (s.updMod m fun md => { md with srcs := md.srcs.filter (· != i), subs := md.subs.filter (· != i) }).mods[m]? = some md' ∧
+      i ∉ md'.subs := by
+  refine ⟨{ md with srcs := md.srcs.filter (· != i), subs := md.subs.filter (· != i) }, ?_, by simp⟩
+  have hlt : m < s.mods.length := by
+    rcases Nat.lt_or_ge m s.mods.length with h | h
+    · exact h
+    · rw [List.getElem?_eq_none h] at hm; cases hm
+  simp only [St.updMod, hm, List.getElem?_set, hlt, if_true]
+
 /-- tie A: the guard prefixes of the entry points this property is about, re-extracted from the source on every run,
 are the ones the model transcribes (`Lm.Inst.CoreTie`) -/
 theorem C03_guards_in_source :
